@@ -317,6 +317,10 @@ theorem defineFree_rel (B : Builtins) (r : Bool) (st : Tab) (orig : Symbol) :
             constant := orig.constant })
     (by rw [hsb.1]) (by rw [hsb.2]) (by simp)
 
+theorem resolve_hit (B : Builtins) (st : Tab) (ps : Chain) (n : Name) (sym : Symbol)
+    (h : mapGet st.store n = some sym) : resolve B (st :: ps) n = .ok (st :: ps, some sym) := by
+  unfold resolve; simp [h]
+
 /-- what `Resolve` guarantees about a BUILTIN answer -/
 def BuiltinAnswer (B : Builtins) (ch : Chain) (n : Name) (s : Symbol) : Prop :=
   n ∉ rootDisabled ch ∧ s.name = n ∧ mapGet B n = some s.index.toNat ∧ 0 ≤ s.index
@@ -697,5 +701,860 @@ theorem disableBuiltin_rel (B : Builtins) (ch : Chain) (ns : List Name) (ch' : C
     | some r =>
       simp only [Sym.rootDisabled, b r hr]
       exact (foldl_disableOne_rel B ns _).2.1 n hn
+
+
+/-! ### the heap of tables -/
+
+def HeapOK (B : Builtins) : Heap → Prop
+  | [] => True
+  | e :: older => (∀ p, e.parent = some p → p < older.length) ∧ TabOK B e.parent.isNone e.tab ∧ HeapOK B older
+
+abbrev tabs (l : List (Nat × Tab)) : Chain := l.map (·.2)
+
+theorem chainOf_eq_nil_iff : ∀ (H : Heap) (id : Nat), chainOf H id = [] ↔ H.length ≤ id
+  | [], id => by simp [chainOf]
+  | e :: older, id => by
+    unfold chainOf
+    by_cases h : older.length = id
+    · simp [h]
+    · simp only [h, ↓reduceIte, List.length_cons]
+      rw [chainOf_eq_nil_iff older id]
+      omega
+
+theorem chainOf_ok (B : Builtins) : ∀ (H : Heap) (id : Nat), HeapOK B H → ChainOK B (tabs (chainOf H id))
+  | [], id, _ => by simp [chainOf, ChainOK]
+  | e :: older, id, h => by
+    unfold chainOf
+    by_cases hid : older.length = id
+    · simp only [hid, ↓reduceIte, List.map_cons]
+      cases hp : e.parent with
+      | none =>
+        have := h.2.1
+        simp only [hp, Option.isNone_none] at this
+        simpa [ChainOK] using this
+      | some p =>
+        have hlt := h.1 p hp
+        have hne : chainOf older p ≠ [] := by
+          intro he; rw [chainOf_eq_nil_iff] at he; omega
+        have := h.2.1
+        simp only [hp, Option.isNone_some] at this
+        refine ChainOK.cons ?_ (chainOf_ok B older p h.2.2)
+        have : (tabs (chainOf older p)).isEmpty = false := by
+          cases hc : chainOf older p with
+          | nil => exact absurd hc hne
+          | cons a b => simp
+        rw [this]; assumption
+    · simp only [hid, ↓reduceIte]
+      exact chainOf_ok B older id h.2.2
+
+theorem writeChain_length : ∀ (H : Heap) (id : Nat) (ts : List Tab), (writeChain H id ts).length = H.length
+  | [], _, _ => rfl
+  | e :: older, id, ts => by
+    unfold writeChain
+    by_cases hid : older.length = id
+    · simp only [hid, ↓reduceIte]
+      cases ts with
+      | nil => rfl
+      | cons t ts' =>
+        cases hp : e.parent with
+        | none => simp
+        | some p => simp [writeChain_length older p ts']
+    · simp [hid, writeChain_length older id ts]
+
+/-- parents are kept and disabled sets only grow -/
+def HeapLe : Heap → Heap → Prop
+  | [], [] => True
+  | e :: H, e' :: H' => e'.parent = e.parent ∧ (∀ n, n ∈ disabledSet e.tab → n ∈ disabledSet e'.tab) ∧ HeapLe H H'
+  | _, _ => False
+
+theorem HeapLe.refl : ∀ H : Heap, HeapLe H H
+  | [] => trivial
+  | _ :: H => ⟨rfl, fun _ h => h, HeapLe.refl H⟩
+
+theorem HeapLe.length : ∀ {H H' : Heap}, HeapLe H H' → H'.length = H.length
+  | [], [], _ => rfl
+  | _ :: H, _ :: H', h => by simp [HeapLe.length (H := H) (H' := H') h.2.2]
+  | [], _ :: _, h => h.elim
+  | _ :: _, [], h => h.elim
+
+theorem writeChain_ok (B : Builtins) : ∀ (H : Heap) (id : Nat) (ts : List Tab), HeapOK B H →
+    ChainRel B (tabs (chainOf H id)) ts → HeapOK B (writeChain H id ts) ∧ HeapLe H (writeChain H id ts)
+  | [], _, _, _, _ => ⟨trivial, trivial⟩
+  | e :: older, id, ts, h, hrel => by
+    unfold writeChain
+    unfold chainOf at hrel
+    by_cases hid : older.length = id
+    · simp only [hid, ↓reduceIte, List.map_cons] at hrel ⊢
+      cases ts with
+      | nil => exact hrel.elim
+      | cons t ts' =>
+        cases hp : e.parent with
+        | none =>
+          simp only [hp, List.map_nil] at hrel ⊢
+          have hroot := h.2.1
+          simp only [hp, Option.isNone_none] at hroot
+          refine ⟨⟨by simp [hp], ?_, h.2.2⟩, by simp [hp], hrel.1.1, HeapLe.refl _⟩
+          simpa [hp] using hrel.1.2 hroot
+        | some p =>
+          simp only [hp] at hrel ⊢
+          have hlt := h.1 p hp
+          have hne : (tabs (chainOf older p)).isEmpty = false := by
+            cases hc : chainOf older p with
+            | nil => rw [chainOf_eq_nil_iff] at hc; omega
+            | cons a b => simp
+          obtain ⟨ih1, ih2⟩ := writeChain_ok B older p ts' h.2.2 hrel.2
+          have hst := h.2.1
+          simp only [hp, Option.isNone_some] at hst
+          refine ⟨⟨?_, ?_, ih1⟩, by simp [hp], hrel.1.1, ih2⟩
+          · intro q hq
+            simp only [hp, Option.some.injEq] at hq
+            subst hq
+            rw [writeChain_length]; exact hlt
+          · have := hrel.1.2
+            rw [hne] at this
+            simpa [hp] using this hst
+    · simp only [hid, ↓reduceIte] at hrel ⊢
+      obtain ⟨ih1, ih2⟩ := writeChain_ok B older id ts h.2.2 hrel
+      refine ⟨⟨?_, h.2.1, ih1⟩, rfl, fun _ h => h, ih2⟩
+      intro q hq
+      rw [writeChain_length]; exact h.1 q hq
+
+/-- the disabled set governing every handle only grows along `HeapLe` -/
+theorem HeapLe.rootDisabled : ∀ {H H' : Heap}, HeapLe H H' → ∀ (id : Nat) (n : Name),
+    n ∈ rootDisabled (tabs (chainOf H id)) → n ∈ rootDisabled (tabs (chainOf H' id))
+  | [], [], _, _, _, hn => hn
+  | e :: H, e' :: H', h, id, n, hn => by
+    have hl := h.2.2.length
+    unfold chainOf at hn ⊢
+    by_cases hid : H.length = id
+    · have hid' : H'.length = id := by omega
+      simp only [hid, hid', ↓reduceIte, List.map_cons] at hn ⊢
+      rw [h.1]
+      cases hp : e.parent with
+      | none =>
+        simp only [hp, List.map_nil, Sym.rootDisabled, rootTab] at hn ⊢
+        exact h.2.1 n hn
+      | some p =>
+        simp only [hp] at hn ⊢
+        cases hc : chainOf H p with
+        | nil =>
+          have hc' : chainOf H' p = [] := by
+            rw [chainOf_eq_nil_iff] at hc ⊢; omega
+          simp only [hc, hc', List.map_nil, Sym.rootDisabled, rootTab] at hn ⊢
+          exact h.2.1 n hn
+        | cons a b =>
+          have ih := HeapLe.rootDisabled h.2.2 p n
+          cases hc' : chainOf H' p with
+          | nil =>
+            rw [chainOf_eq_nil_iff] at hc'
+            have : chainOf H p = [] := by rw [chainOf_eq_nil_iff]; omega
+            rw [this] at hc; cases hc
+          | cons a' b' =>
+            rw [hc, hc'] at ih
+            simp only [hc, hc', List.map_cons, Sym.rootDisabled, rootTab] at hn ih ⊢
+            exact ih hn
+    · have hid' : ¬ H'.length = id := by omega
+      simp only [hid, hid', ↓reduceIte] at hn ⊢
+      exact HeapLe.rootDisabled h.2.2 id n hn
+  | [], _ :: _, h, _, _, _ => h.elim
+  | _ :: _, [], h, _, _, _ => h.elim
+
+
+/-! ### the evaluator's table (optimizer.go resetCompiler) -/
+
+def addDisabled (r : Tab) (n : Name) : Tab :=
+  { r with disabledBuiltins := some (setAdd (r.disabledBuiltins.getD []) n) }
+
+theorem foldl_addDisabled (l : List Name) : ∀ (r : Tab),
+    (l.foldl addDisabled r).store = r.store ∧
+    ∀ x, x ∈ disabledSet (l.foldl addDisabled r) ↔ x ∈ disabledSet r ∨ x ∈ l := by
+  induction l with
+  | nil => intro r; simp
+  | cons a l ih =>
+    intro r
+    obtain ⟨h1, h2⟩ := ih (addDisabled r a)
+    refine ⟨by rw [List.foldl_cons, h1]; rfl, ?_⟩
+    intro x
+    rw [List.foldl_cons, h2]
+    simp only [addDisabled, disabledSet, Option.getD_some, mem_setAdd, List.mem_cons]
+    constructor
+    · rintro ((h | h) | h)
+      · exact Or.inl h
+      · exact Or.inr (Or.inl h)
+      · exact Or.inr (Or.inr h)
+    · rintro (h | h | h)
+      · exact Or.inl (Or.inl h)
+      · exact Or.inl (Or.inr h)
+      · exact Or.inr h
+
+theorem hasAny_false : ∀ (src : Chain), hasAnyShadowedBuiltins src = false → shadowedAlong src = []
+  | [], _ => rfl
+  | st :: ps, h => by
+    unfold hasAnyShadowedBuiltins at h
+    split at h
+    · cases h
+    · rename_i hl
+      have : st.shadowedBuiltins = [] := by
+        cases hs : st.shadowedBuiltins with
+        | nil => rfl
+        | cons a b => simp [hs] at hl
+      simp [shadowedAlong, this, hasAny_false ps h]
+
+theorem disabledBuiltinsMap_getD (src : Chain) (m : Option (List Name))
+    (h : disabledBuiltinsMap src = .ok m) : m.getD [] = rootDisabled src := by
+  cases src with
+  | nil => simp only [disabledBuiltinsMap, Res.ok.injEq] at h; subst h; rfl
+  | cons st ps =>
+    simp only [disabledBuiltinsMap] at h
+    rw [root_eq] at h
+    cases hr : rootTab (st :: ps) with
+    | none => simp [hr, nilDeref, bind, Res.bind] at h
+    | some r =>
+      simp only [hr, bind, Res.bind, pure, Res.ok.injEq] at h
+      subst h
+      simp [Sym.rootDisabled, hr, disabledSet]
+
+theorem initDisabled_mem (r : Tab) (x : Name) : x ∈ disabledSet (initDisabled r) ↔ x ∈ disabledSet r := by
+  unfold initDisabled disabledSet
+  split <;> simp_all
+
+theorem optimCopy_single (t : Tab) (src c2 : Chain) (h : optimCopyBuiltinStates [t] src = .ok c2) :
+    ∃ t2, c2 = [t2] ∧ t2.store = t.store ∧ (∀ n, n ∈ disabledSet t → n ∈ disabledSet t2) ∧
+      (∀ n, n ∈ rootDisabled src → n ∈ disabledSet t2) ∧ (∀ n, n ∈ shadowedAlong src → n ∈ disabledSet t2) := by
+  unfold optimCopyBuiltinStates at h
+  cases hm : disabledBuiltinsMap src with
+  | panic m => simp [hm, bind, Res.bind] at h
+  | err e => simp [hm, bind, Res.bind] at h
+  | ok m =>
+    have hg := disabledBuiltinsMap_getD src m hm
+    simp only [hm, bind, Res.bind] at h
+    split at h
+    · rename_i hc
+      simp only [pure, Res.ok.injEq] at h
+      subst h
+      simp only [Bool.and_eq_true, decide_eq_true_eq, Bool.not_eq_eq_eq_not, Bool.not_true] at hc
+      have h1 : rootDisabled src = [] := by
+        rw [← hg]; exact List.eq_nil_of_length_eq_zero hc.1
+      have h2 := hasAny_false src hc.2
+      exact ⟨t, rfl, rfl, fun _ h => h, by simp [h1], by simp [h2]⟩
+    · simp only [modifyRoot, Res.ok.injEq] at h
+      subst h
+      refine ⟨_, rfl, ?_, ?_, ?_, ?_⟩
+      · change (List.foldl addDisabled (List.foldl addDisabled (initDisabled t) (m.getD [])) (shadowedAlong src)).store = _
+        rw [(foldl_addDisabled _ _).1, (foldl_addDisabled _ _).1]
+        unfold initDisabled; split <;> rfl
+      · intro n hn
+        change n ∈ disabledSet (List.foldl addDisabled (List.foldl addDisabled (initDisabled t) (m.getD [])) (shadowedAlong src))
+        rw [(foldl_addDisabled _ _).2, (foldl_addDisabled _ _).2, initDisabled_mem]
+        exact Or.inl (Or.inl hn)
+      · intro n hn
+        change n ∈ disabledSet (List.foldl addDisabled (List.foldl addDisabled (initDisabled t) (m.getD [])) (shadowedAlong src))
+        rw [(foldl_addDisabled _ _).2, (foldl_addDisabled _ _).2, hg]
+        exact Or.inl (Or.inr hn)
+      · intro n hn
+        change n ∈ disabledSet (List.foldl addDisabled (List.foldl addDisabled (initDisabled t) (m.getD [])) (shadowedAlong src))
+        rw [(foldl_addDisabled _ _).2]
+        exact Or.inr hn
+
+theorem disableBuiltin'_single (B : Builtins) (t : Tab) (names : List Name) (c : Chain) (hs : t.store = [])
+    (h : optimCopyBuiltinStatesFromScope.disableBuiltin' [t] names = .ok c) :
+    ∃ t2, c = [t2] ∧ t2.store = [] ∧ (∀ n, n ∈ disabledSet t → n ∈ disabledSet t2) ∧
+      (∀ n, n ∈ names → n ∈ disabledSet t2) := by
+  unfold optimCopyBuiltinStatesFromScope.disableBuiltin' at h
+  simp only [root, bind, Res.bind] at h
+  split at h
+  · rename_i hl
+    simp only [pure, Res.ok.injEq] at h; subst h
+    have : names = [] := List.eq_nil_of_length_eq_zero hl
+    subst this
+    exact ⟨t, rfl, hs, fun _ h => h, by simp⟩
+  · simp only [modifyRoot, Res.ok.injEq] at h
+    subst h
+    obtain ⟨a, b, c⟩ := foldl_disableOne_rel B names (initDisabled t)
+    refine ⟨_, rfl, c (by unfold initDisabled; split <;> simpa using hs), ?_, b⟩
+    intro n hn
+    exact a.1 n ((initDisabled_mem t n).2 hn)
+
+theorem fromScope_single (B : Builtins) : ∀ (scopes : List (List Name)) (t : Tab) (c : Chain), t.store = [] →
+    optimCopyBuiltinStatesFromScope [t] scopes = .ok c →
+    ∃ t2, c = [t2] ∧ t2.store = [] ∧ (∀ n, n ∈ disabledSet t → n ∈ disabledSet t2) ∧
+      (∀ sc, sc ∈ scopes → ∀ n, n ∈ sc → n ∈ disabledSet t2)
+  | [], t, c, _, h => by simp [optimCopyBuiltinStatesFromScope, root, nilDeref, bind, Res.bind] at h
+  | [s], t, c, hs, h => by
+    unfold optimCopyBuiltinStatesFromScope at h
+    obtain ⟨t2, a, b, c', d⟩ := disableBuiltin'_single B t s c hs h
+    exact ⟨t2, a, b, c', by intro sc hsc; simp only [List.mem_singleton] at hsc; subst hsc; exact d⟩
+  | s :: s' :: rest, t, c, hs, h => by
+    unfold optimCopyBuiltinStatesFromScope at h
+    cases hd : optimCopyBuiltinStatesFromScope.disableBuiltin' [t] s with
+    | panic m => simp [hd, bind, Res.bind] at h
+    | err e => simp [hd, bind, Res.bind] at h
+    | ok d1 =>
+      simp only [hd, bind, Res.bind] at h
+      obtain ⟨t1, a, b, c', d⟩ := disableBuiltin'_single B t s d1 hs hd
+      subst a
+      obtain ⟨t2, a2, b2, c2, d2⟩ := fromScope_single B (s' :: rest) t1 c b h
+      refine ⟨t2, a2, b2, fun n hn => c2 n (c' n hn), ?_⟩
+      intro sc hsc n hn
+      simp only [List.mem_cons] at hsc
+      rcases hsc with hsc | hsc
+      · subst hsc; exact c2 n (d n hn)
+      · exact d2 sc (by simpa using hsc) n hn
+
+/-- the table the optimizer's evaluator compiles with: empty, and every name disabled or
+    shadowed at the call site is disabled in it -/
+theorem evalResetTab_spec (B : Builtins) (ev : Option Tab) (comp : Chain) (scopes : List (List Name)) (t : Tab)
+    (h : evalResetTab ev comp scopes = .ok t) :
+    t.store = [] ∧ (∀ n, n ∈ rootDisabled comp → n ∈ disabledSet t) ∧
+    (∀ n, n ∈ shadowedAlong comp → n ∈ disabledSet t) ∧
+    (∀ sc, sc ∈ scopes → ∀ n, n ∈ sc → n ∈ disabledSet t) := by
+  unfold evalResetTab at h
+  simp only [enableParams, bind, Res.bind] at h
+  have hst0 : (evalStartTab ev).store = [] := by
+    unfold evalStartTab; cases ev <;> rfl
+  generalize evalStartTab ev = t0 at h hst0
+  have hst1 : ({ t0 with disableParams := !false } : Tab).store = [] := hst0
+  generalize ({ t0 with disableParams := !false } : Tab) = t1 at h hst1
+  cases h2 : optimCopyBuiltinStates [t1] comp with
+  | panic m => simp [h2] at h
+  | err e => simp [h2] at h
+  | ok c2 =>
+    simp only [h2] at h
+    obtain ⟨t2, a, b, _, d, e⟩ := optimCopy_single _ comp c2 h2
+    subst a
+    cases h3 : optimCopyBuiltinStatesFromScope [t2] scopes with
+    | panic m => simp [h3] at h
+    | err e => simp [h3] at h
+    | ok c3 =>
+      simp only [h3] at h
+      obtain ⟨t3, a3, b3, c3', d3⟩ := fromScope_single B scopes t2 c3 (by rw [b]; exact hst1) h3
+      subst a3
+      simp only [root, Res.ok.injEq] at h
+      subst h
+      exact ⟨b3, fun n hn => c3' n (d n hn), fun n hn => c3' n (e n hn), d3⟩
+
+
+/-! ### every API call preserves the heap invariant -/
+
+theorem setEntry_length : ∀ (H : Heap) (id : Nat) (e : Entry), (setEntry H id e).length = H.length
+  | [], _, _ => rfl
+  | x :: older, id, e => by
+    unfold setEntry
+    by_cases h : older.length = id
+    · simp [h]
+    · simp [h, setEntry_length older id e]
+
+theorem setEntry_ok (B : Builtins) : ∀ (H : Heap) (id : Nat) (e : Entry), HeapOK B H → TabOK B true e.tab →
+    e.parent = none → HeapOK B (setEntry H id e)
+  | [], _, _, _, _, _ => trivial
+  | x :: older, id, e, h, ht, hp => by
+    unfold setEntry
+    by_cases hid : older.length = id
+    · simp only [hid, ↓reduceIte]
+      exact ⟨by simp [hp], by simpa [hp] using ht, h.2.2⟩
+    · simp only [hid, ↓reduceIte]
+      refine ⟨?_, h.2.1, setEntry_ok B older id e h.2.2 ht hp⟩
+      intro q hq; rw [setEntry_length]; exact h.1 q hq
+
+/-- old handles stay valid and the disabled set that governs them only grows -/
+def Mono (H H' : Heap) : Prop :=
+  H.length ≤ H'.length ∧ ∀ id, id < H.length → ∀ n,
+    n ∈ rootDisabled (tabs (chainOf H id)) → n ∈ rootDisabled (tabs (chainOf H' id))
+
+theorem Mono.refl (H : Heap) : Mono H H := ⟨Nat.le_refl _, fun _ _ _ h => h⟩
+
+theorem Mono.trans {A B' C : Heap} (h1 : Mono A B') (h2 : Mono B' C) : Mono A C :=
+  ⟨Nat.le_trans h1.1 h2.1, fun id hid n hn => h2.2 id (Nat.lt_of_lt_of_le hid h1.1) n (h1.2 id hid n hn)⟩
+
+theorem Mono.of_le {H H' : Heap} (h : HeapLe H H') : Mono H H' :=
+  ⟨by rw [h.length]; exact Nat.le_refl _, fun id _ n hn => h.rootDisabled id n hn⟩
+
+theorem chainOf_cons_old (e : Entry) (H : Heap) (id : Nat) (h : id < H.length) :
+    chainOf (e :: H) id = chainOf H id := by
+  have : ¬ H.length = id := by omega
+  rw [chainOf]; simp [this]
+
+theorem Mono.alloc (H : Heap) (t : Tab) (p : Option Nat) : Mono H (alloc H t p).1 :=
+  ⟨by simp [Model.Sym.alloc], fun id hid n hn => by
+    simp only [Model.Sym.alloc]; rw [chainOf_cons_old _ _ _ hid]; exact hn⟩
+
+theorem bind_ok_inv {α β} {x : Res α} {g : α → Res β} {v : β} (h : x.bind g = .ok v) :
+    ∃ a, x = .ok a ∧ g a = .ok v := by
+  cases x with
+  | ok a => exact ⟨a, rfl, h⟩
+  | err e => simp [Res.bind] at h
+  | panic m => simp [Res.bind] at h
+
+theorem onChain_spec {α} (B : Builtins) (H : Heap) (h : Handle) (f : Chain → Res (Chain × α)) (k : α → Out)
+    (hf : ∀ ch ch' a, ChainOK B ch → f ch = .ok (ch', a) → ChainRel B ch ch') (hH : HeapOK B H) :
+    HeapOK B (onChain H h f k).1 ∧ HeapLe H (onChain H h f k).1 := by
+  unfold onChain
+  cases hr : f (tabsOf H h) with
+  | ok v =>
+    obtain ⟨ch', a⟩ := v
+    cases h with
+    | none => exact ⟨hH, HeapLe.refl _⟩
+    | some id => exact writeChain_ok B H id ch' hH (hf _ _ _ (chainOf_ok B H id hH) hr)
+  | err e => exact ⟨hH, HeapLe.refl _⟩
+  | panic m => exact ⟨hH, HeapLe.refl _⟩
+
+theorem tabsOf_ne_nil_lt {H : Heap} {h : Handle} {st : Tab} {r : Chain} (hh : tabsOf H h = st :: r) :
+    ∃ id, h = some id ∧ id < H.length := by
+  cases h with
+  | none => simp [tabsOf] at hh
+  | some id =>
+    refine ⟨id, rfl, ?_⟩
+    by_cases hlt : id < H.length
+    · exact hlt
+    · have : chainOf H id = [] := (chainOf_eq_nil_iff H id).2 (by omega)
+      simp [tabsOf, this] at hh
+
+/-- chain-level facts of every chain-modifying API call, bundled for `step` -/
+theorem step_spec (B : Builtins) (H : Heap) (op : Op) (hH : HeapOK B H) :
+    HeapOK B (step B H op).1 ∧
+    ((∀ e c s, op ≠ .evalReset (some e) c s) → Mono H (step B H op).1) := by
+  cases op with
+  | newTable => exact ⟨⟨by simp, TabOK.empty rfl, hH⟩, fun _ => Mono.alloc H newTab none⟩
+  | fork h block =>
+    simp only [step]
+    cases hh : tabsOf H h with
+    | nil => exact ⟨hH, fun _ => Mono.refl H⟩
+    | cons st r =>
+      obtain ⟨id, hid, hlt⟩ := tabsOf_ne_nil_lt hh
+      subst hid
+      refine ⟨⟨?_, TabOK.empty rfl, hH⟩, fun _ => Mono.alloc H _ _⟩
+      intro p hp; simp only [Option.some.injEq] at hp; subst hp; exact hlt
+  | parent h sb =>
+    simp only [step]
+    split <;> exact ⟨hH, fun _ => Mono.refl H⟩
+  | defineLocal h n =>
+    have := onChain_spec B H h (fun ch => (defineLocal B ch n).bind fun (c, s, e) => .ok (c, (s, e)))
+      (fun (s, e) => .sym (some s) e) (by
+        intro ch ch' a _ hf
+        obtain ⟨⟨c, s, e⟩, h1, h2⟩ := bind_ok_inv hf
+        simp only [Res.ok.injEq, Prod.mk.injEq] at h2
+        obtain ⟨h2, _⟩ := h2; subst h2
+        rcases defineLocal_rel B ch n c s e h1 with h | h
+        · exact h.1
+        · exact h.1) hH
+    exact ⟨this.1, fun _ => Mono.of_le this.2⟩
+  | defineConstLit h n =>
+    have := onChain_spec B H h (fun ch => (defineConstLit B ch n).bind fun (c, s, e) => .ok (c, (s, e)))
+      (fun (s, e) => .sym (some s) e) (by
+        intro ch ch' a _ hf
+        obtain ⟨⟨c, s, e⟩, h1, h2⟩ := bind_ok_inv hf
+        simp only [Res.ok.injEq, Prod.mk.injEq] at h2
+        obtain ⟨h2, _⟩ := h2; subst h2
+        exact defineConstLit_rel B ch n c s e h1) hH
+    exact ⟨this.1, fun _ => Mono.of_le this.2⟩
+  | defineGlobal h n =>
+    have := onChain_spec B H h (fun ch => defineGlobal B (quoteName n) ch n)
+      (fun r => match r with | .sym s => .sym (some s) true | .error m => .error m)
+      (fun ch ch' a _ hf => defineGlobal_rel B _ ch n ch' a hf) hH
+    exact ⟨this.1, fun _ => Mono.of_le this.2⟩
+  | setParams h ns =>
+    have := onChain_spec B H h (fun ch => setParams B quoteName ch ns)
+      (fun e => match e with | none => .unit | some m => .error m)
+      (fun ch ch' a _ hf => setParams_rel B _ ch ns ch' a hf) hH
+    exact ⟨this.1, fun _ => Mono.of_le this.2⟩
+  | enableParams h v =>
+    have := onChain_spec B H h (fun ch => (enableParams ch v).bind fun c => .ok (c, ())) (fun _ => .unit) (by
+        intro ch ch' a _ hf
+        obtain ⟨c, h1, h2⟩ := bind_ok_inv hf
+        simp only [Res.ok.injEq, Prod.mk.injEq] at h2
+        obtain ⟨h2, _⟩ := h2; subst h2
+        exact enableParams_rel B ch v c h1) hH
+    exact ⟨this.1, fun _ => Mono.of_le this.2⟩
+  | resolve h n =>
+    have := onChain_spec B H h (fun ch => resolve B ch n) (fun r => .sym r r.isSome)
+      (fun ch ch' a hok hf => (resolve_rel B n ch ch' a hok hf).1) hH
+    exact ⟨this.1, fun _ => Mono.of_le this.2⟩
+  | disable h ns =>
+    have := onChain_spec B H h (fun ch => (disableBuiltin ch ns).bind fun c => .ok (c, ())) (fun _ => .unit) (by
+        intro ch ch' a _ hf
+        obtain ⟨c, h1, h2⟩ := bind_ok_inv hf
+        simp only [Res.ok.injEq, Prod.mk.injEq] at h2
+        obtain ⟨h2, _⟩ := h2; subst h2
+        exact (disableBuiltin_rel B ch ns c h1).1) hH
+    exact ⟨this.1, fun _ => Mono.of_le this.2⟩
+  | disabled h =>
+    simp only [step]
+    split <;> exact ⟨hH, fun _ => Mono.refl H⟩
+  | nextIndex h =>
+    simp only [step]
+    split <;> exact ⟨hH, fun _ => Mono.refl H⟩
+  | state h =>
+    simp only [step]
+    split <;> exact ⟨hH, fun _ => Mono.refl H⟩
+  | newModuleTable c =>
+    simp only [step]
+    cases hm : newModuleTab (tabsOf H c) with
+    | ok t =>
+      refine ⟨⟨by simp, ?_, hH⟩, fun _ => Mono.alloc H t none⟩
+      apply TabOK.empty
+      unfold newModuleTab at hm
+      obtain ⟨m, _, h2⟩ := bind_ok_inv hm
+      simp only [pure, Res.ok.injEq] at h2
+      subst h2; rfl
+    | err e => exact ⟨hH, fun _ => Mono.refl H⟩
+    | panic m => exact ⟨hH, fun _ => Mono.refl H⟩
+  | evalReset ev comp scopes =>
+    cases ev with
+    | none =>
+      simp only [step]
+      cases hm : evalResetTab none (tabsOf H comp) scopes with
+      | ok t =>
+        exact ⟨⟨by simp, TabOK.empty (evalResetTab_spec B _ _ _ _ hm).1, hH⟩, fun _ => Mono.alloc H t none⟩
+      | err e => exact ⟨hH, fun _ => Mono.refl H⟩
+      | panic m => exact ⟨hH, fun _ => Mono.refl H⟩
+    | some id =>
+      refine ⟨?_, fun hne => absurd rfl (hne id comp scopes)⟩
+      simp only [step]
+      cases hh : tabsOf H (some id) with
+      | nil => exact hH
+      | cons st r =>
+        simp only
+        have h1 : HeapOK B (setEntry H id { tab := resetTab st, parent := none }) :=
+          setEntry_ok B H id _ hH (TabOK.empty rfl) rfl
+        cases hm : evalResetTab (some st) (tabsOf (setEntry H id { tab := resetTab st, parent := none }) comp) scopes with
+        | ok t => exact setEntry_ok B _ id _ h1 (TabOK.empty (evalResetTab_spec B _ _ _ _ hm).1) rfl
+        | err e => exact h1
+        | panic m => exact h1
+
+theorem run_ok (B : Builtins) : ∀ (ops : List Op) (H : Heap), HeapOK B H → HeapOK B (run B H ops)
+  | [], _, h => h
+  | op :: ops, H, h => run_ok B ops _ (step_spec B H op h).1
+
+
+/-! ### sequences of calls -/
+
+def NoReset : Op → Prop
+  | .evalReset (some _) _ _ => False
+  | _ => True
+
+theorem run_mono (B : Builtins) : ∀ (ops : List Op) (H : Heap), HeapOK B H → (∀ op, op ∈ ops → NoReset op) →
+    Mono H (run B H ops)
+  | [], H, _, _ => Mono.refl H
+  | op :: ops, H, h, hn => by
+    have hs := step_spec B H op h
+    have h1 : Mono H (step B H op).1 := hs.2 (by
+      intro e c s he
+      have := hn op (by simp)
+      rw [he] at this; exact this)
+    exact Mono.trans h1 (run_mono B ops _ hs.1 (fun o ho => hn o (by simp [ho])))
+
+theorem run_append (B : Builtins) : ∀ (a b : List Op) (H : Heap), run B H (a ++ b) = run B (run B H a) b
+  | [], _, _ => rfl
+  | x :: a, b, H => by simp [run, run_append B a b]
+
+theorem chainOf_alloc_new (H : Heap) (e : Entry) :
+    chainOf (e :: H) H.length =
+      (H.length, e.tab) :: (match e.parent with | none => [] | some q => chainOf H q) := by
+  rcases e with ⟨t, p⟩
+  cases p <;> simp [chainOf]
+
+theorem onChain_length {α} (H : Heap) (h : Handle) (f : Chain → Res (Chain × α)) (k : α → Out) :
+    (onChain H h f k).1.length = H.length := by
+  unfold onChain
+  cases f (tabsOf H h) with
+  | ok v => cases h <;> simp [writeBack, writeChain_length]
+  | err e => rfl
+  | panic m => rfl
+
+def Allocates : Op → Prop
+  | .newTable | .fork _ _ | .newModuleTable _ | .evalReset none _ _ => True
+  | _ => False
+
+theorem step_length_eq (B : Builtins) (H : Heap) (op : Op) (h : ¬ Allocates op) :
+    (step B H op).1.length = H.length := by
+  cases op with
+  | newTable => exact absurd trivial h
+  | fork _ _ => exact absurd trivial h
+  | newModuleTable _ => exact absurd trivial h
+  | evalReset ev c sc =>
+    cases ev with
+    | none => exact absurd trivial h
+    | some id =>
+      simp only [step]
+      split
+      · rfl
+      · split <;> simp [setEntry_length]
+  | parent h sb => simp only [step]; split <;> rfl
+  | disabled h => simp only [step]; split <;> rfl
+  | nextIndex h => simp only [step]; split <;> rfl
+  | state h => simp only [step]; split <;> rfl
+  | defineLocal h n => exact onChain_length _ _ _ _
+  | defineConstLit h n => exact onChain_length _ _ _ _
+  | defineGlobal h n => exact onChain_length _ _ _ _
+  | setParams h ns => exact onChain_length _ _ _ _
+  | enableParams h v => exact onChain_length _ _ _ _
+  | resolve h n => exact onChain_length _ _ _ _
+  | disable h ns => exact onChain_length _ _ _ _
+
+/-- every name of `D` is disabled in the root that governs table `id` -/
+def Covered (D : List Name) (H : Heap) (id : Nat) : Prop :=
+  ∀ d, d ∈ D → d ∈ rootDisabled (tabs (chainOf H id))
+
+theorem mem_foldl_setAdd (l : List Name) : ∀ (acc : List Name) (x : Name),
+    x ∈ l.foldl setAdd acc ↔ x ∈ acc ∨ x ∈ l := by
+  induction l with
+  | nil => intro acc x; simp
+  | cons a l ih =>
+    intro acc x
+    rw [List.foldl_cons, ih, mem_setAdd]
+    simp only [List.mem_cons]
+    constructor
+    · rintro ((h | h) | h)
+      · exact Or.inl h
+      · exact Or.inr (Or.inl h)
+      · exact Or.inr (Or.inr h)
+    · rintro (h | h | h)
+      · exact Or.inl (Or.inl h)
+      · exact Or.inl (Or.inr h)
+      · exact Or.inr h
+
+theorem newModuleTab_spec (ch : Chain) (t : Tab) (h : newModuleTab ch = .ok t) :
+    t.store = [] ∧ ∀ n, n ∈ disabledSet t ↔ n ∈ rootDisabled ch := by
+  unfold newModuleTab at h
+  obtain ⟨m, h1, h2⟩ := bind_ok_inv h
+  simp only [pure, Res.ok.injEq] at h2
+  subst h2
+  refine ⟨rfl, ?_⟩
+  intro n
+  rw [← disabledBuiltinsMap_getD ch m h1]
+  cases m with
+  | none => simp [disabledSet, copyMapStringSet, newTab]
+  | some l => simp [disabledSet, copyMapStringSet, newTab, mem_foldl_setAdd]
+
+/-! ### the compiler as a trace of symbol-table calls and GETBUILTIN emissions -/
+
+/-- `compileIdent` (compiler_nodes.go:1206-1234): what is emitted for an identifier -/
+inductive IdentCode where
+  | getGlobal (i : Int) | getLocal (i : Int) | getBuiltin (i : Int) | getFree (i : Int)
+  | constLit | unresolved | goPanic
+  deriving Repr, DecidableEq
+
+def compileIdent (B : Builtins) (H : Heap) (h : Handle) (name : Name) : Heap × IdentCode :=
+  -- symbol, ok := c.symbolTable.Resolve(node.Name)
+  match resolve B (tabsOf H h) name with
+  | .ok (ch', none) => (writeBack H h ch', .unresolved)   -- compile error (or the iota constant)
+  | .ok (ch', some symbol) =>
+    (writeBack H h ch',
+      match symbol.scope with                              -- switch symbol.Scope
+      | .global => .getGlobal symbol.index
+      | .local => .getLocal symbol.index
+      | .builtin => .getBuiltin symbol.index               -- c.emit(node, OpGetBuiltin, symbol.Index)
+      | .free => .getFree symbol.index
+      | .constLit => .constLit)
+  | _ => (H, .goPanic)
+
+inductive CEvent where
+  /-- a call on a symbol table -/
+  | api (op : Op)
+  /-- `compileIdent` on the compiler's current table -/
+  | ident (h : Handle) (name : Name)
+  /-- `compileAssignStmt` with several left-hand sides: `GETBUILTIN BuiltinMakeArray` -/
+  | destructure
+  deriving Repr
+
+structure CState where
+  heap : Heap
+  /-- tables that belong to this compilation (main table, scopes, module tables, evaluator tables) -/
+  fam : List Nat
+  /-- operands of the GETBUILTIN instructions emitted so far -/
+  out : List Int
+
+def cstep (B : Builtins) (mk : Nat) (s : CState) : CEvent → CState
+  | .api op =>
+    let H' := (step B s.heap op).1
+    { heap := H', fam := if H'.length = s.heap.length + 1 then s.heap.length :: s.fam else s.fam, out := s.out }
+  | .ident h name =>
+    let (H', code) := compileIdent B s.heap h name
+    { heap := H', fam := s.fam,
+      out := match code with
+        | .getBuiltin i => s.out ++ [i]
+        | _ => s.out }
+  | .destructure => { s with out := s.out ++ [(mk : Int)] }
+
+def crun (B : Builtins) (mk : Nat) : CState → List CEvent → CState
+  | s, [] => s
+  | s, e :: es => crun B mk (cstep B mk s e) es
+
+def InFam (fam : List Nat) : Handle → Prop
+  | none => False
+  | some id => id ∈ fam
+
+/-- the calls a compilation makes: only on its own tables; tables are created by `Fork`, by
+    `compileModule` (from the compiler's table) and by the evaluator's `resetCompiler` -/
+def LegalOp (fam : List Nat) : Op → Prop
+  | .newTable => False
+  | .fork h _ | .parent h _ | .defineLocal h _ | .defineGlobal h _ | .defineConstLit h _
+  | .setParams h _ | .enableParams h _ | .resolve h _ | .disable h _ | .disabled h
+  | .nextIndex h | .state h | .newModuleTable h => InFam fam h
+  | .evalReset ev comp _ => ev = none ∧ InFam fam comp
+
+def LegalEvent (s : CState) : CEvent → Prop
+  | .api op => LegalOp s.fam op
+  | .ident h _ => InFam s.fam h
+  | .destructure => True
+
+def AllLegal (B : Builtins) (mk : Nat) : CState → List CEvent → Prop
+  | _, [] => True
+  | s, e :: es => LegalEvent s e ∧ AllLegal B mk (cstep B mk s e) es
+
+/-- distinct builtin names have distinct indices -/
+def BInj (B : Builtins) : Prop := ∀ a b i, mapGet B a = some i → mapGet B b = some i → a = b
+
+def GoodOperand (B : Builtins) (mk : Nat) (D : List Name) (i : Int) : Prop :=
+  i = (mk : Int) ∨ ∀ d, d ∈ D → mapGet B d ≠ some i.toNat
+
+structure CInv (B : Builtins) (mk : Nat) (D : List Name) (s : CState) : Prop where
+  heap : HeapOK B s.heap
+  fam : ∀ id, id ∈ s.fam → id < s.heap.length ∧ Covered D s.heap id
+  out : ∀ i, i ∈ s.out → GoodOperand B mk D i
+
+theorem LegalOp.noReset {fam : List Nat} {op : Op} (h : LegalOp fam op) : NoReset op := by
+  cases op <;> try trivial
+  rename_i ev comp sc
+  cases ev with
+  | none => trivial
+  | some e => exact absurd h.1 (by simp)
+
+theorem covered_mono {D : List Name} {H H' : Heap} {id : Nat} (hm : Mono H H') (hid : id < H.length)
+    (h : Covered D H id) : Covered D H' id := fun d hd => hm.2 id hid d (h d hd)
+
+theorem rootDisabled_cons_of_ne_nil (t : Tab) {c : Chain} (h : c ≠ []) :
+    rootDisabled (t :: c) = rootDisabled c := by
+  simp [Sym.rootDisabled, rootTab_cons_ne_nil t h]
+
+theorem cstep_inv (B : Builtins) (mk : Nat) (D : List Name) (hinj : BInj B) (s : CState) (e : CEvent)
+    (hs : CInv B mk D s) (hl : LegalEvent s e) : CInv B mk D (cstep B mk s e) := by
+  cases e with
+  | destructure =>
+    refine ⟨hs.heap, hs.fam, ?_⟩
+    intro i hi
+    simp only [cstep, List.mem_append, List.mem_singleton] at hi
+    rcases hi with hi | hi
+    · exact hs.out i hi
+    · exact Or.inl hi
+  | ident h name =>
+    cases h with
+    | none => exact hl.elim
+    | some id =>
+      have hfam := hs.fam id hl
+      have hok := chainOf_ok B s.heap id hs.heap
+      simp only [cstep, compileIdent]
+      cases hr : resolve B (tabsOf s.heap (some id)) name with
+      | panic m => exact ⟨hs.heap, hs.fam, hs.out⟩
+      | err e => exact ⟨hs.heap, hs.fam, hs.out⟩
+      | ok v =>
+        obtain ⟨ch', r⟩ := v
+        obtain ⟨hrel, hans⟩ := resolve_rel B name _ ch' r hok hr
+        obtain ⟨hH', hle⟩ := writeChain_ok B s.heap id ch' hs.heap hrel
+        have hm : Mono s.heap (writeChain s.heap id ch') := Mono.of_le hle
+        have hfam' : ∀ j, j ∈ s.fam → j < (writeChain s.heap id ch').length ∧ Covered D (writeChain s.heap id ch') j := by
+          intro j hj
+          obtain ⟨a, b⟩ := hs.fam j hj
+          exact ⟨by rw [writeChain_length]; exact a, covered_mono hm a b⟩
+        cases r with
+        | none => exact ⟨hH', hfam', hs.out⟩
+        | some symbol =>
+          refine ⟨hH', hfam', ?_⟩
+          simp only [writeBack]
+          cases hsc : symbol.scope <;> simp only <;> try exact hs.out
+          intro i hi
+          simp only [List.mem_append, List.mem_singleton] at hi
+          rcases hi with hi | hi
+          · exact hs.out i hi
+          · subst hi
+            obtain ⟨h1, _, h3, _⟩ := hans symbol rfl hsc
+            refine Or.inr ?_
+            intro d hd hmd
+            have : d = name := hinj d name _ hmd h3
+            subst this
+            exact h1 (hfam.2 d hd)
+  | api op =>
+    have hnr : NoReset op := LegalOp.noReset hl
+    have hsp := step_spec B s.heap op hs.heap
+    have hm : Mono s.heap (step B s.heap op).1 := hsp.2 (by
+      intro e c sc he; rw [he] at hnr; exact hnr)
+    have hold : ∀ j, j ∈ s.fam → j < (step B s.heap op).1.length ∧ Covered D (step B s.heap op).1 j := by
+      intro j hj
+      obtain ⟨a, b⟩ := hs.fam j hj
+      exact ⟨Nat.lt_of_lt_of_le a hm.1, covered_mono hm a b⟩
+    refine ⟨hsp.1, ?_, hs.out⟩
+    simp only [cstep]
+    split
+    · rename_i hlen
+      intro j hj
+      simp only [List.mem_cons] at hj
+      rcases hj with hj | hj
+      · subst hj
+        refine ⟨by omega, ?_⟩
+        -- the new table: which operation allocated it
+        cases op with
+        | newTable => exact hl.elim
+        | fork h b =>
+          cases h with
+          | none => exact hl.elim
+          | some id =>
+            obtain ⟨hlt, hcov⟩ := hs.fam id hl
+            have hne : chainOf s.heap id ≠ [] := by
+              intro he; rw [chainOf_eq_nil_iff] at he; omega
+            cases hc : chainOf s.heap id with
+            | nil => exact absurd hc hne
+            | cons a r =>
+              simp only [step, tabsOf, hc, List.map_cons, Model.Sym.alloc]
+              rw [Covered, chainOf_alloc_new]
+              intro d hd
+              simp only [List.map_cons, hc]
+              have := hcov d hd
+              rw [hc] at this
+              simpa [Sym.rootDisabled, rootTab] using this
+        | newModuleTable h =>
+          cases h with
+          | none => exact hl.elim
+          | some id =>
+            obtain ⟨hlt, hcov⟩ := hs.fam id hl
+            simp only [step] at hlen ⊢
+            cases hm' : newModuleTab (tabsOf s.heap (some id)) with
+            | ok t =>
+              simp only [Model.Sym.alloc]
+              rw [Covered, chainOf_alloc_new]
+              intro d hd
+              simp only [List.map_cons, List.map_nil, Sym.rootDisabled, rootTab]
+              exact ((newModuleTab_spec _ t hm').2 d).2 (hcov d hd)
+            | err e => simp [hm'] at hlen
+            | panic m => simp [hm'] at hlen
+        | evalReset ev comp scopes =>
+          obtain ⟨hev, hcomp⟩ := hl
+          subst hev
+          cases comp with
+          | none => exact hcomp.elim
+          | some id =>
+            obtain ⟨hlt, hcov⟩ := hs.fam id hcomp
+            simp only [step] at hlen ⊢
+            cases hm' : evalResetTab none (tabsOf s.heap (some id)) scopes with
+            | ok t =>
+              simp only [Model.Sym.alloc]
+              rw [Covered, chainOf_alloc_new]
+              intro d hd
+              simp only [List.map_cons, List.map_nil, Sym.rootDisabled, rootTab]
+              exact (evalResetTab_spec B _ _ _ t hm').2.1 d (hcov d hd)
+            | err e => simp [hm'] at hlen
+            | panic m => simp [hm'] at hlen
+        | parent h b => exfalso; have := step_length_eq B s.heap (.parent h b) (fun h => h); omega
+        | disabled h => exfalso; have := step_length_eq B s.heap (.disabled h) (fun h => h); omega
+        | nextIndex h => exfalso; have := step_length_eq B s.heap (.nextIndex h) (fun h => h); omega
+        | state h => exfalso; have := step_length_eq B s.heap (.state h) (fun h => h); omega
+        | defineLocal h n => exfalso; have := step_length_eq B s.heap (.defineLocal h n) (fun h => h); omega
+        | defineConstLit h n => exfalso; have := step_length_eq B s.heap (.defineConstLit h n) (fun h => h); omega
+        | defineGlobal h n => exfalso; have := step_length_eq B s.heap (.defineGlobal h n) (fun h => h); omega
+        | setParams h n => exfalso; have := step_length_eq B s.heap (.setParams h n) (fun h => h); omega
+        | enableParams h n => exfalso; have := step_length_eq B s.heap (.enableParams h n) (fun h => h); omega
+        | resolve h n => exfalso; have := step_length_eq B s.heap (.resolve h n) (fun h => h); omega
+        | disable h n => exfalso; have := step_length_eq B s.heap (.disable h n) (fun h => h); omega
+      · exact hold j hj
+    · exact hold
 
 end UgoVerif.Proofs.Sym
